@@ -469,7 +469,9 @@ func (e *Engine) verifyInstance(c *Contract, inst *ssa.Function) *FuncResult {
 	}
 	res.Mode = mode
 	var known map[string]string
-	for pass := 0; pass < 4; pass++ {
+	e.knownWritten = nil
+	written := map[string]bool{}
+	for pass := 0; pass < 6; pass++ {
 		vc, err := e.genFunc(&cc, inst, mode, known)
 		if err != "" {
 			res.Err = err
@@ -485,6 +487,13 @@ func (e *Engine) verifyInstance(c *Contract, inst *ssa.Function) *FuncResult {
 				grown = true
 			}
 		}
+		for k := range vc.written {
+			if !written[k] {
+				written[k] = true
+				grown = true
+			}
+		}
+		e.knownWritten = written
 		if !grown || !e.anyLoopSeen {
 			res.Obligs = vc.obligs
 			for k := range vc.usedExt {
